@@ -108,7 +108,7 @@ class DNSServer(Service, discriminator="dns-server"):
 
         # cast payload into a DNS packet
         payload: DNSPacket = payload
-        if payload.dns_request is not None:
+        if payload.dns_request is not None and payload.dns_reply is None:
             self.sys_log.info(
                 f"{self.name}: Received domain lookup request for {payload.dns_request.domain_name_request} "
                 f"from session {session_id}"
